@@ -351,7 +351,8 @@ def expiry_histories(rng, pool, count):
                     q.append('u:%s:%d' % (p[1], int(p[2]) * 4 + rng.choice([0, 1, 2, 3])))
                 else:
                     q.append(op)
-            ops = ['s:4'] + q + ['n:1', 'n:2', 'n:3']
+            last = max(i for i, op in enumerate(q) if op[0] in 'up')
+            ops = ['s:4'] + q[:last + 1] + ['n:1', 'n:2', 'n:3'] + q[last + 1:]
         out.append((ordered, ttl, ops))
     return out
 
